@@ -33,9 +33,9 @@ static int parseConvertElement(MPT_INTERFACE(convertable) *conv, MPT_TYPE(type) 
 	const char *txt;
 	int len;
 	
-	/* indicate consumed value */
+	/* no value left to convert */
 	if (!(txt = it->val)) {
-		return 0;
+		return MPT_ERROR(MissingData);
 	}
 	/* reset value end indicator */
 	if (it->restore) {
